@@ -129,7 +129,8 @@ impl ParseError {
     fn generate_env_slice(env: ParseEnv, index: ParseIndex) -> ParseEnv {
         // 字符范围下限 | 后续截取包含
         let char_range_left = match index > ERR_CHAR_VIEW_RANGE {
-            true => index - ERR_CHAR_VIEW_RANGE,
+            // * 📌头索引可能已越过环境末尾（如未闭合括弧被无条件跳过后），需限制在环境长度之内
+            true => (index - ERR_CHAR_VIEW_RANGE).min(env.len()),
             false => 0,
         };
         // 字符范围上限 | 后续截取不包含
